@@ -400,8 +400,8 @@ theorem stepN_three (st : State) (r : Req) :
     cases hc : stepCreate st r k with
     | mk s y =>
       cases y with
-      | inl x => simp [step]
-      | inr p => obtain ⟨k', acc⟩ := p; simp [step]
+      | inl x => simp
+      | inr p => obtain ⟨k', acc⟩ := p; simp
 
 /-- whenever a request has an answer, it is the answer (and the store) of the request run alone
     from the store it started in — provided nobody else moved in between -/
@@ -476,7 +476,6 @@ theorem bind_once_conc_partial (st : State) (r0 r1 : Req) (k : Nat) (hk0 : k ≠
     have := stepN_resp s1 r1 b hp
     rw [this] at hp
     simp at hp
-    simp only [this]
     rw [← hp]
     exact hseq
   | start => simp; cases x0 <;> simp [countVia] <;> split <;> omega
@@ -506,7 +505,6 @@ theorem bind_once_conc_partial_rev (st : State) (r0 r1 : Req) (k : Nat) (hk0 : k
     have := stepN_resp s1 r0 a hp
     rw [this] at hp
     simp at hp
-    simp only [this]
     rw [← hp, countVia_pair_swap]
     exact hseq
   | start => simp; cases x1 <;> simp [countVia] <;> split <;> omega
